@@ -334,7 +334,7 @@ def catalogue(tier, rng, max_n=None):
         except Exception:
             deltas = list(range(2, n + 1))
         for delta in deltas:
-            if n > max_n and delta > 5:      # quick tier: of the length-63 codes only the high-rate ones
+            if n > max_n and 5 < delta < 27:      # quick tier: of the length-63 codes only the high-rate ones and the two lowest-rate ones (redundancy >= 54)
                 continue
             for tag in ("left", "right"):
                 cat.append(Code("BCHCodeEncoder", "mu=%d,delta=%d,information_set=%s" % (mu, delta, tag),
